@@ -1,2 +1,293 @@
-(* Property C05 - statements only (proofs in Proofs/C05.v). Not built yet. *)
-From SC.Model Require Import Base.
+(* Property C05 - percentage phrases compute the textbook formulas for numbers and money.
+   STATEMENTS ONLY (proofs: Proofs/C05.v).
+
+   Model functions: RuleFns.number_on / number_of / number_off / find_numbers_percent /
+   find_total_from_percent (reached through RuleFns.call_rule from Rules.rule_tokinizer),
+   Items.calculate with a percent operand (through Parser.parse and Interp.execute_ast).
+   Spec: Spec/Percent.v (pct_plus, pct_minus, pct_of, pct_on, pct_off, what_percent, of_what over
+   the exact rationals Qc; gdiv = "a zero divisor yields 0"; amount = plain number | money).
+
+   Vocabulary defined in Proofs/C05.v:
+     field_amount vs k fs = Some a   the rule's field map [fs] binds the name [k] to a token denoting
+                                     the amount [a]: Number x -> Plain x, Money x c -> Cash x c, or
+                                     a variable whose value is one of these;
+     field_percent vs k fs = Some p  ... to a Percent p token (or a variable holding one);
+     amount_token a                  the result token: Number (decimal) / Money in a's currency;
+     ops_on, ops_off, ...            the operation sequence performed, in any number algebra;
+     value_of_infos                  rule loop -> token list -> parser -> interpreter, i.e.
+                                     everything after the lexer, on the regenerated rule table.
+   The spellings 'p%' and '%p', the lexing of literals and of currency names are tied by the
+   correspondence check (tools/props/C05.py) and by C05_spellings / C05_line_examples below. *)
+From Coq Require Import QArith Qcanon Floats.
+From SC.Model Require Import Base Num NumQ NumF64 Types Config Case Match Post Parser Items Interp RuleFns Rules
+     Rx Api Run64.
+From SC.Spec Require Import Percent.
+From SC.Gen Require Import Regexes.
+From SC.Proofs Require Import C05.
+
+Local Open Scope Qc_scope.
+
+(* ---- the textbook formulas, exact rationals: for ALL X, A, B, p ---- *)
+
+(* 'p% on X' = X*(1+p/100); money in -> money out, same currency (amt_with keeps the kind) *)
+Theorem C05_on : forall (cfg : config Qc) vs fs (a : amount Qc) (p : Qc),
+  field_amount vs "number" fs = Some a -> field_percent vs "p" fs = Some p ->
+  number_on cfg vs fs = Ok (Some (amount_token (amt_with a (amt_val a * (1 + p / q100))))).
+Proof. exact number_on_q. Qed.
+
+(* 'p% of X' = X*p/100 *)
+Theorem C05_of : forall (cfg : config Qc) vs fs (a : amount Qc) (p : Qc),
+  field_amount vs "number" fs = Some a -> field_percent vs "p" fs = Some p ->
+  number_of cfg vs fs = Ok (Some (amount_token (amt_with a (amt_val a * p / q100)))).
+Proof. exact number_of_q. Qed.
+
+(* 'p% off X' = X*(1-p/100) *)
+Theorem C05_off : forall (cfg : config Qc) vs fs (a : amount Qc) (p : Qc),
+  field_amount vs "number" fs = Some a -> field_percent vs "p" fs = Some p ->
+  number_off cfg vs fs = Ok (Some (amount_token (amt_with a (amt_val a * (1 - p / q100))))).
+Proof. exact number_off_q. Qed.
+
+(* 'A is what % of B' = the percentage 100*A/B, 0 when B = 0; A and B plain or money *)
+Theorem C05_what_percent : forall (vs : vars Qc) fs (a b : amount Qc),
+  field_amount vs "part" fs = Some a -> field_amount vs "total" fs = Some b ->
+  find_numbers_percent vs fs
+  = Ok (Some (TPercent (if Qc_eq_bool (amt_val b) 0 then 0 else q100 * amt_val a / amt_val b))).
+Proof. exact find_numbers_percent_q. Qed.
+
+(* 'A is p% of what' = 100*A/p, 0 when p = 0; money A gives money in A's currency *)
+Theorem C05_of_what : forall (cfg : config Qc) vs fs (a : amount Qc) (p : Qc),
+  field_amount vs "number_part" fs = Some a -> field_percent vs "percent_part" fs = Some p ->
+  find_total_from_percent cfg vs fs
+  = Ok (Some (amount_token (amt_with a (if Qc_eq_bool p 0 then 0 else q100 * amt_val a / p)))).
+Proof. exact find_total_from_percent_q. Qed.
+
+(* 'X + p%' = X*(1+p/100), 'X - p%' = X*(1-p/100): the interpreter step, number and money
+   (any currency c) *)
+Theorem C05_plus_minus_calc : forall bexec (cfg : config Qc) (X : Qc) nt c (p : Qc),
+  calculate bexec cfg (INumber X nt) (IPercent p) OAdd = Ok (Some (INumber (X * (1 + p / q100)) nt)) /\
+  calculate bexec cfg (INumber X nt) (IPercent p) OSub = Ok (Some (INumber (X * (1 - p / q100)) nt)) /\
+  calculate bexec cfg (IMoney X c) (IPercent p) OAdd = Ok (Some (IMoney (X * (1 + p / q100)) c)) /\
+  calculate bexec cfg (IMoney X c) (IPercent p) OSub = Ok (Some (IMoney (X * (1 - p / q100)) c)).
+Proof. exact calc_percent_q. Qed.
+
+(* ... and the three-token line through the parser and the interpreter *)
+Theorem C05_plus_minus_phrase : forall bexec (cfg : config Qc) vs (X : Qc) nt c (p : Qc),
+  phrase_value bexec cfg vs [TNumber X nt; TOperator OP_PLUS; TPercent p]
+    = Some (AItem (INumber (X * (1 + p / q100)) nt)) /\
+  phrase_value bexec cfg vs [TNumber X nt; TOperator OP_MINUS; TPercent p]
+    = Some (AItem (INumber (X * (1 - p / q100)) nt)) /\
+  phrase_value bexec cfg vs [TMoney X c; TOperator OP_PLUS; TPercent p]
+    = Some (AItem (IMoney (X * (1 + p / q100)) c)) /\
+  phrase_value bexec cfg vs [TMoney X c; TOperator OP_MINUS; TPercent p]
+    = Some (AItem (IMoney (X * (1 - p / q100)) c)).
+Proof. exact plus_minus_phrase_q. Qed.
+
+(* the guarded division of the rationals is what the code's do_division computes there *)
+Theorem C05_zero_divisor : forall a b : Qc,
+  @do_division Qc NumQ a b = (if Qc_eq_bool b 0 then 0 else a / b) /\
+  @do_division Qc NumQ a 0 = 0.
+Proof. exact zero_divisor. Qed.
+
+Close Scope Qc_scope.
+
+(* ---- the operation sequences, any number algebra (in particular binary64) ---- *)
+Section WithNum.
+Context {F : Type} {NF : Num F}.
+
+Theorem C05_rule_ops : forall (cfg : config F) vs fs (a b : amount F) (p : F),
+  (field_amount vs "number" fs = Some a -> field_percent vs "p" fs = Some p ->
+     let X := amt_val a in
+     number_on cfg vs fs = Ok (Some (amount_token (amt_with a (fadd X (do_division (fmul X p) f100))))) /\
+     number_of cfg vs fs = Ok (Some (amount_token (amt_with a (do_division (fmul X p) f100)))) /\
+     number_off cfg vs fs = Ok (Some (amount_token (amt_with a (fsub X (do_division (fmul X p) f100)))))) /\
+  (field_amount vs "part" fs = Some a -> field_amount vs "total" fs = Some b ->
+     find_numbers_percent vs fs
+     = Ok (Some (TPercent (do_division (fmul (amt_val a) f100) (amt_val b))))) /\
+  (field_amount vs "number_part" fs = Some a -> field_percent vs "percent_part" fs = Some p ->
+     find_total_from_percent cfg vs fs
+     = Ok (Some (amount_token (amt_with a (do_division (fmul (amt_val a) f100) p))))).
+Proof. exact rule_ops. Qed.
+
+Theorem C05_plus_minus_ops : forall bexec (cfg : config F) vs (X : F) nt c (p : F),
+  phrase_value bexec cfg vs [TNumber X nt; TOperator OP_PLUS; TPercent p]
+    = Some (AItem (INumber (fadd X (fmul (do_division X f100) p)) nt)) /\
+  phrase_value bexec cfg vs [TNumber X nt; TOperator OP_MINUS; TPercent p]
+    = Some (AItem (INumber (fsub X (fmul (do_division X f100) p)) nt)) /\
+  phrase_value bexec cfg vs [TMoney X c; TOperator OP_PLUS; TPercent p]
+    = Some (AItem (IMoney (fadd X (fmul (do_division X f100) p)) c)) /\
+  phrase_value bexec cfg vs [TMoney X c; TOperator OP_MINUS; TPercent p]
+    = Some (AItem (IMoney (fsub X (fmul (do_division X f100) p)) c)).
+Proof. exact plus_minus_phrase_ops. Qed.
+
+(* the percentage must be the right operand: 'p% + X' is not one of the phrases *)
+Theorem C05_percent_left_declined : forall bexec (cfg : config F) (X : F) nt c (p : F) op,
+  calculate bexec cfg (IPercent p) (INumber X nt) op = Ok None /\
+  calculate bexec cfg (IPercent p) (IMoney X c) op = Ok None.
+Proof. exact calc_percent_left_declined. Qed.
+
+(* the rule names dispatch to the functions of the theorems above *)
+Theorem C05_dispatch : forall bexec ny (cfg : config F) lang vs fs,
+  call_rule bexec ny cfg lang vs (s "number_on") fs = number_on cfg vs fs /\
+  call_rule bexec ny cfg lang vs (s "number_of") fs = number_of cfg vs fs /\
+  call_rule bexec ny cfg lang vs (s "number_off") fs = number_off cfg vs fs /\
+  call_rule bexec ny cfg lang vs (s "find_numbers_percent") fs = find_numbers_percent vs fs /\
+  call_rule bexec ny cfg lang vs (s "find_total_from_percent") fs = find_total_from_percent cfg vs fs.
+Proof. exact call_rule_dispatch. Qed.
+
+(* the bindings the rule loop produces for literal operands satisfy the hypotheses above *)
+Theorem C05_bindings : forall (vs : vars F) k fs ti,
+  assoc (s k) fs = Some ti ->
+  (forall x nt, ti_ty ti = Some (TNumber x nt) -> field_amount vs k fs = Some (Plain x)) /\
+  (forall x c, ti_ty ti = Some (TMoney x c) -> field_amount vs k fs = Some (Cash x c)) /\
+  (forall p, ti_ty ti = Some (TPercent p) -> field_percent vs k fs = Some p).
+Proof. exact bindings. Qed.
+
+(* the names used above, unfolded *)
+Theorem C05_ops_unfold : forall (X p A B : F),
+  ops_on X p = fadd X (do_division (fmul X p) f100) /\
+  ops_off X p = fsub X (do_division (fmul X p) f100) /\
+  ops_of X p = do_division (fmul X p) f100 /\
+  ops_plus X p = fadd X (fmul (do_division X f100) p) /\
+  ops_minus X p = fsub X (fmul (do_division X f100) p) /\
+  ops_what_percent A B = do_division (fmul A f100) B /\
+  ops_of_what A p = do_division (fmul A f100) p.
+Proof. exact ops_unfold. Qed.
+
+End WithNum.
+
+(* ---- the regenerated rule table (config.json as it is now) ---- *)
+
+(* in every language the five rules exist once, and their patterns are exactly the phrases of
+   the statement with the field names the theorems above assume ("on" -> number_on, ...) *)
+Theorem C05_rule_table :
+  map fst (cf_rules default_config) = [s "en"; s "tr"] /\
+  forall lang rules e, In (lang, rules) (cf_rules default_config) -> In e phrase_table ->
+    rule_has_shape rules e = true.
+Proof. exact phrase_rules_table. Qed.
+
+(* on the token shapes of the phrases the rule loop (all rules, BTreeMap order) fires the intended
+   rule and the line evaluates to the operation sequence: for ALL binary64 X, p, A, B, all
+   currency codes, spans and texts, in every language; both operand orders *)
+Theorem C05_rule_selected_number : forall bexec ny line b1 e1 b2 e2 b3 e3 x1 x3 lang (X p : float) nt,
+  In lang (map fst (cf_rules default_config)) ->
+  value_of_infos bexec ny line lang [tinfo b1 e1 (TPercent p) x1; word b2 e2 "on"; tinfo b3 e3 (TNumber X nt) x3]
+    = Some (num (ops_on X p)) /\
+  value_of_infos bexec ny line lang [tinfo b1 e1 (TNumber X nt) x1; word b2 e2 "on"; tinfo b3 e3 (TPercent p) x3]
+    = Some (num (ops_on X p)) /\
+  value_of_infos bexec ny line lang [tinfo b1 e1 (TPercent p) x1; word b2 e2 "of"; tinfo b3 e3 (TNumber X nt) x3]
+    = Some (num (ops_of X p)) /\
+  value_of_infos bexec ny line lang [tinfo b1 e1 (TNumber X nt) x1; word b2 e2 "of"; tinfo b3 e3 (TPercent p) x3]
+    = Some (num (ops_of X p)) /\
+  value_of_infos bexec ny line lang [tinfo b1 e1 (TPercent p) x1; word b2 e2 "off"; tinfo b3 e3 (TNumber X nt) x3]
+    = Some (num (ops_off X p)) /\
+  value_of_infos bexec ny line lang [tinfo b1 e1 (TNumber X nt) x1; word b2 e2 "off"; tinfo b3 e3 (TPercent p) x3]
+    = Some (num (ops_off X p)).
+Proof. exact selected_number. Qed.
+
+Theorem C05_rule_selected_money : forall bexec ny line b1 e1 b2 e2 b3 e3 x1 x3 lang (X p : float) (c : str),
+  In lang (map fst (cf_rules default_config)) ->
+  value_of_infos bexec ny line lang [tinfo b1 e1 (TPercent p) x1; word b2 e2 "on"; tinfo b3 e3 (TMoney X c) x3]
+    = Some (AItem (IMoney (ops_on X p) c)) /\
+  value_of_infos bexec ny line lang [tinfo b1 e1 (TMoney X c) x1; word b2 e2 "on"; tinfo b3 e3 (TPercent p) x3]
+    = Some (AItem (IMoney (ops_on X p) c)) /\
+  value_of_infos bexec ny line lang [tinfo b1 e1 (TPercent p) x1; word b2 e2 "of"; tinfo b3 e3 (TMoney X c) x3]
+    = Some (AItem (IMoney (ops_of X p) c)) /\
+  value_of_infos bexec ny line lang [tinfo b1 e1 (TMoney X c) x1; word b2 e2 "of"; tinfo b3 e3 (TPercent p) x3]
+    = Some (AItem (IMoney (ops_of X p) c)) /\
+  value_of_infos bexec ny line lang [tinfo b1 e1 (TPercent p) x1; word b2 e2 "off"; tinfo b3 e3 (TMoney X c) x3]
+    = Some (AItem (IMoney (ops_off X p) c)) /\
+  value_of_infos bexec ny line lang [tinfo b1 e1 (TMoney X c) x1; word b2 e2 "off"; tinfo b3 e3 (TPercent p) x3]
+    = Some (AItem (IMoney (ops_off X p) c)).
+Proof. exact selected_money. Qed.
+
+Theorem C05_rule_selected_what : forall bexec ny line b1 e1 b2 e2 b3 e3 b4 e4 b5 e5 b6 e6 x1 x2 x3 lang
+    (A B p : float) nt nt' (c c' : str),
+  In lang (map fst (cf_rules default_config)) ->
+  value_of_infos bexec ny line lang
+    [tinfo b1 e1 (TNumber A nt) x1; word b2 e2 "is"; word b3 e3 "what"; tinfo b4 e4 (TOperator 37) x2;
+     word b5 e5 "of"; tinfo b6 e6 (TNumber B nt') x3]
+    = Some (AItem (IPercent (ops_what_percent A B))) /\
+  value_of_infos bexec ny line lang
+    [tinfo b1 e1 (TMoney A c) x1; word b2 e2 "is"; word b3 e3 "what"; tinfo b4 e4 (TOperator 37) x2;
+     word b5 e5 "of"; tinfo b6 e6 (TMoney B c') x3]
+    = Some (AItem (IPercent (ops_what_percent A B))) /\
+  value_of_infos bexec ny line lang
+    [tinfo b1 e1 (TNumber A nt) x1; word b2 e2 "is"; tinfo b3 e3 (TPercent p) x2; word b4 e4 "of"; word b5 e5 "what"]
+    = Some (num (ops_of_what A p)) /\
+  value_of_infos bexec ny line lang
+    [tinfo b1 e1 (TMoney A c) x1; word b2 e2 "is"; tinfo b3 e3 (TPercent p) x2; word b4 e4 "of"; word b5 e5 "what"]
+    = Some (AItem (IMoney (ops_of_what A p) c)).
+Proof. exact selected_what. Qed.
+
+(* no rule rewrites 'X + p%' / 'X - p%'; the interpreter computes the share of X *)
+Theorem C05_rule_selected_plus_minus : forall bexec ny line b1 e1 b2 e2 b3 e3 x1 x2 x3 lang (X p : float) nt (c : str),
+  In lang (map fst (cf_rules default_config)) ->
+  value_of_infos bexec ny line lang [tinfo b1 e1 (TNumber X nt) x1; tinfo b2 e2 (TOperator OP_PLUS) x2; tinfo b3 e3 (TPercent p) x3]
+    = Some (AItem (INumber (ops_plus X p) nt)) /\
+  value_of_infos bexec ny line lang [tinfo b1 e1 (TNumber X nt) x1; tinfo b2 e2 (TOperator OP_MINUS) x2; tinfo b3 e3 (TPercent p) x3]
+    = Some (AItem (INumber (ops_minus X p) nt)) /\
+  value_of_infos bexec ny line lang [tinfo b1 e1 (TMoney X c) x1; tinfo b2 e2 (TOperator OP_PLUS) x2; tinfo b3 e3 (TPercent p) x3]
+    = Some (AItem (IMoney (ops_plus X p) c)) /\
+  value_of_infos bexec ny line lang [tinfo b1 e1 (TMoney X c) x1; tinfo b2 e2 (TOperator OP_MINUS) x2; tinfo b3 e3 (TPercent p) x3]
+    = Some (AItem (IMoney (ops_minus X p) c)).
+Proof. exact selected_plus_minus. Qed.
+
+(* ---- non-vacuity ---- *)
+Set Warnings "-inexact-float".
+Theorem C05_line_examples :
+  line_value64 "en" "6% on 40" = Some (num 42.4) /\
+  line_value64 "en" "%6 on 40" = Some (num 42.4) /\
+  line_value64 "en" "40 on 6%" = Some (num 42.4) /\
+  line_value64 "en" "%6 off 40" = Some (num 37.6) /\
+  line_value64 "en" "40 of 6%" = Some (num 2.4) /\
+  line_value64 "en" "40 + 10%" = Some (num 44) /\
+  line_value64 "en" "40 + %10" = Some (num 44) /\
+  line_value64 "en" "-50 - 10%" = Some (num (-45)) /\
+  line_value64 "en" "50 + -10%" = Some (num 45) /\
+  line_value64 "en" "$40 - 10%" = Some (money64 36 "USD") /\
+  line_value64 "en" "0,5% of 1.000,5 eur" = Some (money64 5.0025 "EUR") /\
+  line_value64 "en" "20 is what % of 50" = Some (pct64 40) /\
+  line_value64 "en" "5 is what % of 0" = Some (pct64 0) /\
+  line_value64 "en" "20 try is %10 of what" = Some (money64 200 "TRY") /\
+  line_value64 "en" "5 is 0% of what" = Some (num 0) /\
+  line_value64 "tr" "6% on 40" = Some (num 42.4).
+Proof. exact line_examples. Qed.
+Set Warnings "inexact-float".
+
+Theorem C05_rational_examples : forall cfg : config Qc,
+  (let fs := [(s "number", qtok (TMoney (qz 40) (s "USD"))); (s "p", qtok (TPercent (qz 6)))] in
+   number_on cfg [] fs = Ok (Some (TMoney (qfrac 212 5) (s "USD"))) /\
+   number_of cfg [] fs = Ok (Some (TMoney (qfrac 12 5) (s "USD"))) /\
+   number_off cfg [] fs = Ok (Some (TMoney (qfrac 188 5) (s "USD")))) /\
+  find_numbers_percent []
+    [(s "part", qtok (TNumber (qz 20) Decimal)); (s "total", qtok (TNumber (qz 50) Decimal))]
+    = Ok (Some (TPercent (qz 40))) /\
+  find_numbers_percent []
+    [(s "part", qtok (TMoney (qz 5) (s "EUR"))); (s "total", qtok (TMoney (qz 0) (s "EUR")))]
+    = Ok (Some (TPercent (qz 0))) /\
+  find_total_from_percent cfg []
+    [(s "number_part", qtok (TMoney (qz 20) (s "TRY"))); (s "percent_part", qtok (TPercent (qz 10)))]
+    = Ok (Some (TMoney (qz 200) (s "TRY"))).
+Proof. exact rational_examples. Qed.
+
+Print Assumptions C05_on.
+Print Assumptions C05_of.
+Print Assumptions C05_off.
+Print Assumptions C05_what_percent.
+Print Assumptions C05_of_what.
+Print Assumptions C05_bindings.
+Print Assumptions C05_plus_minus_calc.
+Print Assumptions C05_plus_minus_phrase.
+Print Assumptions C05_zero_divisor.
+Print Assumptions C05_rule_ops.
+Print Assumptions C05_plus_minus_ops.
+Print Assumptions C05_percent_left_declined.
+Print Assumptions C05_dispatch.
+Print Assumptions C05_rule_table.
+Print Assumptions C05_rule_selected_number.
+Print Assumptions C05_rule_selected_money.
+Print Assumptions C05_rule_selected_what.
+Print Assumptions C05_rule_selected_plus_minus.
+Print Assumptions C05_ops_unfold.
+Print Assumptions C05_line_examples.
+Print Assumptions C05_rational_examples.
